@@ -744,6 +744,122 @@ pub fn check_hook_inner(c: &Case) -> Outcome {
         .ok()
 }
 
+
+// ---------------------------------------------------------------------------
+// bracket expressions whose members are characters that are special elsewhere
+// ---------------------------------------------------------------------------
+
+/// `r/x[...]y` where the bracket expression holds characters that mean something outside brackets
+/// - ']' (first, after the optional '^'), backslash, digits, parentheses, '|', '*', '+', '?', '{',
+/// '$', '.', '^' (not first), '-' (last) - all of which are ordinary members inside it in every
+/// syntax find offers (a backslash does not quote there).  Subjects: `r/x<c>y` for every candidate
+/// character c.  The path is in the language iff (c is a member) != negated.
+#[derive(Serialize, Deserialize, Debug, Clone)]
+pub struct BracketCase {
+    pub syntax: String,
+    pub neg: bool,
+    /// members in the order written (']' is moved to the front, '-' to the end, '^' off the front)
+    pub members: Vec<char>,
+    pub icase: bool,
+}
+
+const BRACKET_CANDIDATES: &[char] = &[']', '\\', '1', '2', '(', ')', '|', '*', '+', '?', '{', '}', '$', '.', '^', '-', 'a', 'b', 'A', '[', '/'];
+
+fn bracket_text(c: &BracketCase) -> String {
+    let mut m: Vec<char> = c.members.clone();
+    m.dedup();
+    let mut out = String::from("[");
+    if c.neg {
+        out.push('^');
+    }
+    if m.contains(&']') {
+        out.push(']');
+    }
+    let mut mid: Vec<char> = m.iter().copied().filter(|x| *x != ']' && *x != '-').collect();
+    // '^' must not come first in a positive set: put it behind another member, or behind ']'
+    if !c.neg && !m.contains(&']') && mid.first() == Some(&'^') && mid.len() > 1 {
+        mid.rotate_left(1);
+    }
+    // "[." "[=" "[:" would open a collating element / class: keep '[' away from '.', '=' and ':'
+    for x in &mid {
+        out.push(*x);
+    }
+    if m.contains(&'-') {
+        out.push('-');
+    }
+    out.push(']');
+    out
+}
+
+fn check_bracket(_ctx: &mut Ctx, c: &BracketCase) -> Outcome {
+    let mut members: Vec<char> = vec![];
+    for m in &c.members {
+        if !members.contains(m) {
+            members.push(*m);
+        }
+    }
+    let c = BracketCase { members, ..c.clone() };
+    if c.members.is_empty() || (!c.neg && !c.members.contains(&']') && c.members.iter().filter(|m| **m != '-').eq(['^'].iter())) || c.members.contains(&'[') {
+        return Pass::discard("not a well-formed bracket expression for this sub-run");
+    }
+    let pattern = format!("r/x{}y", bracket_text(&c));
+    let paths: Vec<String> = BRACKET_CANDIDATES.iter().filter(|x| **x != '/').map(|x| format!("r/x{x}y")).collect();
+    let refs: Vec<&str> = paths.iter().map(|s| s.as_str()).collect();
+    let got = match crate::engine::proc::catch(|| regex_match_many(&c.syntax, &pattern, c.icase, &refs)) {
+        Ok(Ok(g)) => g,
+        Ok(Err(e)) => return fail(format!("C17:bracket-with-special-members:pattern-rejected:{}", family_name(&c.syntax)), format!("-regextype {} -regex {pattern:?}: {e}", c.syntax)),
+        Err(p) => return fail(format!("C17:panic:{}", p.split(": ").next().unwrap_or("?")), format!("-regextype {} -regex {pattern:?}: {p}", c.syntax)),
+    };
+    for ((p, g), ch) in paths.iter().zip(&got).zip(BRACKET_CANDIDATES.iter().filter(|x| **x != '/')) {
+        let is_member = c.members.iter().any(|m| m == ch || (c.icase && m.is_ascii_alphabetic() && m.eq_ignore_ascii_case(ch)));
+        let want = is_member != c.neg;
+        if *g != want {
+            let what = match ch {
+                '\\' => "backslash",
+                ']' => "close-bracket",
+                '1' | '2' => "digit-after-backslash",
+                '(' | ')' => "parenthesis",
+                _ => "other",
+            };
+            return fail(
+                format!("C17:bracket-with-special-members:{}:{}:{what}", if c.neg { "negated" } else { "positive" }, if want { "member-rejected" } else { "non-member-accepted" }),
+                format!("find r -regextype {} {} {pattern:?}: path {p:?} is {} the language (inside a bracket expression every character but a leading '^', a ']' that is not first and a '-' between two others stands for itself), find says {}", c.syntax, if c.icase { "-iregex" } else { "-regex" }, if want { "in" } else { "NOT in" }, if *g { "match" } else { "no match" }),
+            );
+        }
+    }
+    Pass::new(c.members.iter().any(|m| "]\\()|*+?{$^-".contains(*m)))
+        .evals(paths.len() as u64)
+        .class(family_name(&c.syntax))
+        .class_if(c.neg, "negated-bracket")
+        .class_if(c.members.contains(&']'), "close-bracket-as-first-member")
+        .class_if(c.members.contains(&'\\'), "backslash-as-member")
+        .sample(json!({"regextype": c.syntax, "pattern": pattern, "icase": c.icase}))
+        .ok()
+}
+
+fn gen_bracket(g: &mut Gen) -> BracketCase {
+    let pool: Vec<char> = BRACKET_CANDIDATES.iter().copied().filter(|x| *x != '[' && *x != '/').collect();
+    let n = g.usize_in(1, 4);
+    let mut members = vec![];
+    if g.chance(1, 2) {
+        members.push(']');
+    }
+    for _ in 0..n {
+        let m = g.pick(&pool);
+        if !members.contains(&m) {
+            members.push(m);
+        }
+    }
+    // the classic: backslash followed by a digit, or by a parenthesis
+    if g.chance(1, 3) {
+        members.retain(|m| *m != '\\' && *m != '1');
+        members.push('\\');
+        members.push(g.pick(&['1', '2', ')', '(']));
+        members.dedup();
+    }
+    BracketCase { syntax: g.pick(&["emacs", "posix-basic", "posix-extended", "grep", "ed", "sed"]).to_string(), neg: g.bool(), members, icase: g.chance(1, 4) }
+}
+
 // ---------------------------------------------------------------------------
 // end to end
 // ---------------------------------------------------------------------------
@@ -894,6 +1010,8 @@ fn small_subjects() -> Vec<String> {
 fn run(w: &mut Worker) {
     w.regress::<Case>("hook", check_hook);
     w.regress::<E2e>("e2e", check_e2e);
+    w.regress::<BracketCase>("brackets", check_bracket);
+    w.random("brackets", w.tier.pick(6_000, 100_000), (8, 20), 200, gen_bracket, check_bracket);
     w.regress_fuzz(fuzz_one);
     let maxn = w.tier.pick(4usize, 5);
     let asts = small_asts(maxn);
@@ -928,6 +1046,8 @@ fn run(w: &mut Worker) {
 fn replay(w: &mut Worker, sub: &str, v: Value) -> Outcome {
     if sub == "e2e" {
         check_e2e(&mut w.ctx, &decode(v))
+    } else if sub == "brackets" {
+        check_bracket(&mut w.ctx, &decode(v))
     } else {
         check_hook(&mut w.ctx, &decode(v))
     }
